@@ -59,7 +59,9 @@ Proof. exact e_search_total. Qed.
 Theorem C20_service_time_terminates : forall sb d, wf_sb sb -> d <= sbf sb (st sb d).
 Proof. exact st_total. Qed.
 
-(* known finding C20-prefix-zero-step: with an ArrivalCurvePrefix (steps_iter yields 0 first) the analyses panic *)
-Theorem C20_prefix_in_analysis_refuted : exists sb rb limit, wf_sb sb /\ wf_rb rb /\
-  e_es true sb rb limit = RPanic /\ e_es false sb rb limit = RPanic.
-Proof. exact e_es_needs_steps_ok. Qed.
+(* former finding C20-prefix-zero-step: with an ArrivalCurvePrefix (steps_iter yields 0 first) the analyses used to
+   panic (0 - 1 underflow in Offset::closed_from_time_zero); fixed by skipping zero-length steps: the analysis no
+   longer panics and the debug and release builds agree *)
+Theorem C20_prefix_in_analysis_no_longer_panics : exists sb rb limit, wf_sb sb /\ wf_rb rb /\
+  e_es true sb rb limit <> RPanic /\ e_es true sb rb limit = e_es false sb rb limit.
+Proof. exact e_es_prefix_no_panic. Qed.
